@@ -145,14 +145,16 @@ type c11Env struct {
 	self    peer.ID
 	holders []peer.ID
 
-	bullyWait time.Duration // BullyWaitTime of this run
-	silent    bool          // the first attempt ends by CoordinatorTimeout (set short); everything later runs with one hour
-	short     bool          // `~`: CoordinatorTimeout is short until an election starts
-	mu        sync.Mutex
-	lb        time.Time     // a moment known to precede the creation of the election's timer
-	over      chan struct{} // closed when the election's Select subscription is released (election over)
-	overOnce  sync.Once
-	firstSeen bool
+	startParams []byte        // params of the replacement start a claimant sends (default: the opaque "p1")
+	realRuns    int           // >0: the process is real; number of protocol broadcasts of the first attempt + 1
+	bullyWait   time.Duration // BullyWaitTime of this run
+	silent      bool          // the first attempt ends by CoordinatorTimeout (set short); everything later runs with one hour
+	short       bool          // `~`: CoordinatorTimeout is short until an election starts
+	mu          sync.Mutex
+	lb          time.Time     // a moment known to precede the creation of the election's timer
+	over        chan struct{} // closed when the election's Select subscription is released (election over)
+	overOnce    sync.Once
+	firstSeen   bool
 }
 
 // setSilent: the first attempt ends by CoordinatorTimeout; when its waitForStart subscribes to the start messages the
@@ -327,15 +329,24 @@ func (e *c11Env) second(done <-chan struct{}, cancel func(), responder string, a
 	switch st {
 	case "coord":
 		stop := e.stopOn(done)
+		entered := false
 		for _, from := range arrivals {
 			r := cm.deliver(e.sid, comm.TssReadyMsg, from, []byte{}, stop)
 			if r == "done" {
+				entered = true
 				break
 			}
 			if r != "ok" {
 				note += ";ready-" + r
 				break
 			}
+		}
+		if e.realRuns > 0 && !entered {
+			// a REAL Run must not be entered while the session is being cancelled (its first round would block for ever on
+			// the outbound channel nobody drains any more). Whether the last ready message started one is decided by an
+			// event: one more ready message, from a peer without a key share — either the collecting loop takes it (no
+			// Run is coming) or the Run is entered first.
+			cm.deliver(e.sid, comm.TssReadyMsg, c07Peers[9], []byte{}, stop)
 		}
 	case "wait":
 		if quiet && !bully {
@@ -347,7 +358,11 @@ func (e *c11Env) second(done <-chan struct{}, cancel func(), responder string, a
 		if responder != "-" {
 			stop := e.stopOn(done)
 			from := c07Peer(responder)
-			payload, _ := message.MarshalStartMessage([]byte("p1"))
+			params := []byte("p1")
+			if e.startParams != nil {
+				params = e.startParams
+			}
+			payload, _ := message.MarshalStartMessage(params)
 			if r := cm.deliver(e.sid, comm.TssInitiateMsg, from, []byte{}, stop); r != "ok" {
 				note += ";init-" + r
 			} else if r := cm.deliver(e.sid, comm.TssStartMsg, from, payload, stop); r != "ok" {
@@ -370,6 +385,21 @@ func (e *c11Env) second(done <-chan struct{}, cancel func(), responder string, a
 		}) != "ok" {
 			c07Anomaly()
 			note += ";noselect"
+		}
+	}
+	if e.realRuns > 0 && len(e.proc.runList()) > runMark {
+		// the real Run of the second attempt: let its first protocol message go out before the session is ended
+		want := e.realRuns
+		if r := cm.waitUntil(c07Patience(), done, func() bool {
+			n := 0
+			for _, b := range cm.casts {
+				if b.typ == comm.TssKeySignMsg {
+					n++
+				}
+			}
+			return n >= want
+		}); r == "timeout" {
+			note += ";noprotocol"
 		}
 	}
 	cancel()
@@ -407,7 +437,11 @@ func (e *c11Env) second(done <-chan struct{}, cancel func(), responder string, a
 		if r.coordinator {
 			runs = append(runs, "c:"+c07ParamPeers(r.params))
 		} else {
-			runs = append(runs, "w:"+string(r.params))
+			if e.startParams != nil {
+				runs = append(runs, "w:"+c07ParamPeers(r.params))
+			} else {
+				runs = append(runs, "w:"+string(r.params))
+			}
 		}
 	}
 	return "sel=" + sel + ";r=" + joinOr(rs, ",") + ";start=" + start + ";run=" + joinOr(runs, "/") + ";res=" + c11ErrClass(*rerr) + note
@@ -425,6 +459,116 @@ func c11ErrClass(err error) string {
 
 // c11ShortTimeout: the CoordinatorTimeout of the `~` scenarios (TssTimeout stays at one hour)
 const c11ShortTimeout = 40 * time.Millisecond
+
+// c11First drives the FIRST attempt of a real Execute up to its failure.
+//
+//	first = `silent` (the static coordinator never speaks and CoordinatorTimeout passes), an error code the first Run
+//	returns, or `f:<code>`: while the first Run is in progress the coordinator's fail message arrives (watchExecution
+//	fails first, with an untyped error); the Run, cancelled by that, then fails with <code> — both errors reach
+//	handleError joined by Execute's own pool.
+type c11First struct {
+	e        *c11Env
+	c        peer.ID // static coordinator
+	silent   bool
+	withFail bool
+	castMark int
+	failed   chan struct{}
+}
+
+// prepareFirst must be called before Execute is started; `later` is what the Runs after the first one do (nil: block
+// until cancelled).
+func (e *c11Env) prepareFirst(first, claimantArg string, c peer.ID, later func(context.Context) error) *c11First {
+	cm := e.cm
+	f := &c11First{e: e, c: c, silent: first == "silent", withFail: strings.HasPrefix(first, "f:"), failed: make(chan struct{})}
+	code := strings.TrimPrefix(first, "f:")
+	setMarks := func() { // everything subscribed / broadcast so far belongs to attempt 1
+		cm.mu.Lock()
+		cm.mark = cm.next
+		f.castMark = len(cm.casts)
+		cm.mu.Unlock()
+	}
+	firstRun := func(ctx context.Context) error {
+		if f.withFail {
+			<-ctx.Done()
+			setMarks()
+			e.setLB()
+			close(f.failed)
+		}
+		return c11Leaf(code, e.self)
+	}
+	e.proc.onEnter = func(i int) {
+		if i == 0 && strings.HasPrefix(claimantArg, "~") { // the first attempt's own wait keeps its one-hour ticker
+			e.short = true
+			e.co.CoordinatorTimeout = c11ShortTimeout
+		}
+		if i == 0 && !f.silent && !f.withFail {
+			setMarks()
+			e.setLB()
+		}
+	}
+	if f.silent {
+		e.proc.outcomes = []func(context.Context) error{later, later}
+		e.setSilent()
+		e.co.CoordinatorTimeout = 30 * time.Millisecond
+	} else {
+		e.proc.outcomes = []func(context.Context) error{firstRun, later, later}
+	}
+	return f
+}
+
+// drive brings the first attempt to its Run (as coordinator: ready messages from the first t other holders; otherwise
+// initiate and start from the static coordinator) and lets it fail. => how the first Run was called, the number of Runs
+// that belong to the first attempt, anomalies.
+func (f *c11First) drive(done <-chan struct{}, t int) (run1 string, runMark int, note string) {
+	e, cm, sid := f.e, f.e.cm, f.e.sid
+	switch {
+	case f.silent:
+		// nothing to deliver: the static coordinator never speaks
+	case f.c == e.self:
+		if r := cm.waitUntil(c07Patience(), done, func() bool { return cm.subscriber(sid, comm.TssReadyMsg) != nil }); r != "ok" {
+			note = ";first-" + r
+		}
+		stop := e.stopOn(done)
+		n := 0
+		for _, h := range e.holders {
+			if h == e.self || n == t {
+				continue
+			}
+			if r := cm.deliver(sid, comm.TssReadyMsg, h, []byte{}, stop); r != "ok" {
+				break
+			}
+			n++
+		}
+		c11Await(stop)
+		runMark = 1
+	default:
+		stop := e.stopOn(done)
+		payload, _ := message.MarshalStartMessage([]byte("p0"))
+		if r := cm.deliver(sid, comm.TssInitiateMsg, f.c, []byte{}, stop); r == "ok" {
+			cm.deliver(sid, comm.TssStartMsg, f.c, payload, stop)
+		}
+		c11Await(stop)
+		runMark = 1
+	}
+	if f.withFail && len(e.proc.runList()) > 0 {
+		if r := cm.deliver(sid, comm.TssFailMsg, f.c, []byte{}, done); r != "ok" {
+			note += ";fail-" + r
+		}
+		c11Await(f.failed)
+	}
+	run1 = "none"
+	if rs := e.proc.runList(); len(rs) > 0 && runMark == 1 {
+		if rs[0].coordinator {
+			run1 = "c:" + c07ParamPeers(rs[0].params)
+		} else {
+			run1 = "w:" + string(rs[0].params)
+		}
+	}
+	if runMark == 1 && len(e.proc.runList()) == 0 {
+		runMark = 0
+	}
+	return run1, runMark, note
+}
 
 func c11Nil(context.Context) error { return nil }
 
@@ -464,7 +608,9 @@ func init() {
 		var rerr error
 		go func() {
 			defer close(done)
-			rerr = e.co.VerifC11HandleError(ctx, err, []tss.TssProcess{e.proc}, make(chan interface{}, 4))
+			rerr = c07Guard(func() error {
+				return e.co.VerifC11HandleError(ctx, err, []tss.TssProcess{e.proc}, make(chan interface{}, 4))
+			})
 		}()
 		return e.second(done, cancel, strings.TrimPrefix(a[5], "!"), c07PeerList(a[6]), 0, 0, &rerr)
 	}
@@ -487,102 +633,17 @@ func init() {
 		if silent && c == self {
 			return "selfcoord"
 		}
-		cm := e.cm
-		// `f:<code>`: while the first Run is in progress the coordinator's fail message arrives (watchExecution fails
-		// first, with an untyped error); the Run, cancelled by that, then fails with <code> — both errors reach
-		// handleError joined by Execute's own pool.
-		withFail := strings.HasPrefix(a[5], "f:")
-		code := strings.TrimPrefix(a[5], "f:")
-		castMark := 0
-		setMarks := func() { // everything subscribed / broadcast so far belongs to attempt 1
-			cm.mu.Lock()
-			cm.mark = cm.next
-			castMark = len(cm.casts)
-			cm.mu.Unlock()
-		}
-		failed := make(chan struct{})
-		first := func(ctx context.Context) error {
-			if withFail {
-				<-ctx.Done()
-				setMarks()
-				e.setLB()
-				close(failed)
-			}
-			return c11Leaf(code, self)
-		}
-		e.proc.onEnter = func(i int) {
-			if i == 0 && strings.HasPrefix(a[6], "~") { // the first attempt's own wait keeps its one-hour ticker
-				e.short = true
-				e.co.CoordinatorTimeout = c11ShortTimeout
-			}
-			if i == 0 && !silent && !withFail {
-				setMarks()
-				e.setLB()
-			}
-		}
-		if silent {
-			e.proc.outcomes = []func(context.Context) error{c11Nil, c11Nil}
-			e.setSilent()
-			e.co.CoordinatorTimeout = 30 * time.Millisecond
-		} else {
-			e.proc.outcomes = []func(context.Context) error{first, c11Nil, c11Nil}
-		}
+		f := e.prepareFirst(a[5], a[6], c, c11Nil)
 		ctx, cancel := context.WithCancel(context.Background())
 		defer cancel()
 		done := make(chan struct{})
 		var rerr error
 		go func() {
 			defer close(done)
-			rerr = e.co.Execute(ctx, []tss.TssProcess{e.proc}, make(chan interface{}, 4))
+			rerr = c07Guard(func() error { return e.co.Execute(ctx, []tss.TssProcess{e.proc}, make(chan interface{}, 4)) })
 		}()
-		note := ""
-		runMark := 0
-		switch {
-		case silent:
-			// nothing to deliver: the static coordinator never speaks
-		case c == self:
-			if r := cm.waitUntil(c07Patience(), done, func() bool { return cm.subscriber(sid, comm.TssReadyMsg) != nil }); r != "ok" {
-				note = ";first-" + r
-			}
-			stop := e.stopOn(done)
-			n := 0
-			for _, h := range holders {
-				if h == self || n == t {
-					continue
-				}
-				if r := cm.deliver(sid, comm.TssReadyMsg, h, []byte{}, stop); r != "ok" {
-					break
-				}
-				n++
-			}
-			c11Await(stop)
-			runMark = 1
-		default:
-			stop := e.stopOn(done)
-			payload, _ := message.MarshalStartMessage([]byte("p0"))
-			if r := cm.deliver(sid, comm.TssInitiateMsg, c, []byte{}, stop); r == "ok" {
-				cm.deliver(sid, comm.TssStartMsg, c, payload, stop)
-			}
-			c11Await(stop)
-			runMark = 1
-		}
-		if withFail && len(e.proc.runList()) > 0 {
-			if r := cm.deliver(sid, comm.TssFailMsg, c, []byte{}, done); r != "ok" {
-				note += ";fail-" + r
-			}
-			c11Await(failed)
-		}
-		run1 := "none"
-		if rs := e.proc.runList(); len(rs) > 0 && runMark == 1 {
-			if rs[0].coordinator {
-				run1 = "c:" + c07ParamPeers(rs[0].params)
-			} else {
-				run1 = "w:" + string(rs[0].params)
-			}
-		}
-		if runMark == 1 && len(e.proc.runList()) == 0 {
-			runMark = 0
-		}
+		run1, runMark, note := f.drive(done, t)
+		castMark := f.castMark
 		return "run1=" + run1 + ";" + e.second(done, cancel, a[6], c07PeerList(a[7]), castMark, runMark, &rerr) + note
 	}
 	for _, k := range []string{"C11.handle", "C11.exec"} {
@@ -598,6 +659,7 @@ func c11Shapes(k string) []string {
 }
 
 func genC11(g *G) {
+	defer genC11Real(g)
 	// ---- conc aggregation: every pool of ≤ 3 tasks over the leaf classes, and two-level nestings
 	leaves := []string{"o", "n", "t3", "c2", "s", "m"}
 	c07Seqs(leaves, 3, func(seq []string) {
